@@ -1234,6 +1234,33 @@ func TestVerifC12EntryAndSCT(t *testing.T) {
 		ctx := context.Background()
 		tree := w.v.tree()
 		cls := append(w.classes(), "mode:"+mode)
+		// The same client is asked about the same position under a second tree head: another log (same key, same
+		// shape, other certificates) of size nB is served now, every object authentic. What the client returns must be
+		// authenticated against the tree head it is given, not against an earlier one.
+		splitView := func(idx int64) {
+			if w.srv.rt == nil || idx < 0 || rapid.IntRange(0, 2).Draw(t, "secondTreeHead") != 0 {
+				return
+			}
+			nB := rapid.SampledFrom([]int64{n, n, n + 1, min(n+257, c12MasterN), c12MasterN}).Draw(t, "secondSize")
+			if idx >= nB {
+				return
+			}
+			alt := c12ViewOf("alt", nB)
+			w.srv.rt.mu.Lock()
+			w.srv.rt.objs = alt.objs
+			w.srv.rt.mu.Unlock()
+			e2, proof2, err := c.Entry(ctx, alt.tree(), idx)
+			if err != nil {
+				t.Fatalf("Entry(%d) under a second tree head (another log of size %d, every object authentic) failed on a client that had looked the position up under the first one: %v; %s", idx, nB, err, w.desc())
+			}
+			if cerr := c12Covered(e2, alt.m.entries[idx]); cerr != nil {
+				t.Fatalf("Entry(%d) under a second tree head (another log of size %d) returned content that tree head does not commit to: %v; %s", idx, nB, cerr, w.desc())
+			}
+			if perr := tlog.CheckRecord(proof2, nB, alt.tree().Hash, idx, tlog.Hash(vfref.LeafHash(alt.m.entries[idx].MerkleTreeLeaf()))); perr != nil {
+				t.Fatalf("Entry(%d) under a second tree head returned an inclusion proof that does not verify: %v; %s", idx, perr, w.desc())
+			}
+			cls = append(cls, "second-tree-head-on-the-same-client")
+		}
 
 		if mode == "Entry" {
 			idx := p
@@ -1252,6 +1279,7 @@ func TestVerifC12EntryAndSCT(t *testing.T) {
 					t.Fatalf("Entry(%d) returned an inclusion proof that does not verify: %v; %s", idx, perr, w.desc())
 				}
 				cls = append(cls, "outcome:returned")
+				splitView(idx)
 			} else {
 				positional := truth[min(max(idx, 0), n-1)].Archival || truth[min(max(idx, 0), n-1)].Index == idx
 				if idx >= 0 && idx < n && positional && w.expectComplete() {
@@ -1312,6 +1340,7 @@ func TestVerifC12EntryAndSCT(t *testing.T) {
 				t.Fatalf("CheckInclusion returned an inclusion proof that does not verify: %v; %s", perr, w.desc())
 			}
 			cls = append(cls, "outcome:confirmed")
+			splitView(s.idx)
 		} else {
 			if s.defect == "genuine" && len(why) == 0 && w.expectComplete() {
 				t.Fatalf("CheckInclusion refused a genuine SCT although every consulted object was authentic: %v; sct=%x; %s", err, sb, w.desc())
